@@ -1,13 +1,112 @@
-"""C03: structural clauses (see DESIGN.md section 4)."""
+"""C03 optimal completion: forwarding, mode, one padding sentinel (G13), loss positions."""
 from __future__ import annotations
 
+import ast
+
+from rules import enum as R_enum
 from rules import fwd as R_fwd
+from sa.astutil import call_name, kwarg, u
+from sa.defuse import ReachingDefs
+from sa.model import AnalysisError, own_calls, own_nodes
+from sa.resolve import bind_args
+from . import string_common as SC
 from .common import Ctx, plumbing
 
 
 def run(ctx: Ctx):
-    plumbing(ctx, 'S1')
-    R_fwd.g5_module_pairs(ctx.pkg, ctx.res, ctx.col, only=['hard_optimal_completion_distillation_loss', 'optimal_completion'], clause='S1')
-    ctx.col.floor('g5_pairs', ctx.col.counts.get('g5_pairs', 0), 2)
-    R_fwd.g5_delegation(ctx.pkg, ctx.res, ctx.col, ['_string::optimal_completion'], {'_string_matching'}, clause='S1')
-    return dict(explanation='plumbing clauses only (work in progress)', decided=['S1'], not_decided=[])
+    col, pkg, res = ctx.col, ctx.pkg, ctx.res
+    rel = "_string.py"
+    R_fwd.g5_module_pairs(pkg, res, col, only={"optimal_completion", "hard_optimal_completion_distillation_loss"}, clause="S1")
+    col.floor("g5_pairs", col.counts.get("g5_pairs", 0), 2)
+    SC.mode_table(ctx, ["optimal_completion"], "S1")
+    oc = pkg.func("_string::optimal_completion")
+    f = pkg.func("_string::hard_optimal_completion_distillation_loss")
+    where = f"{rel}::{f.qualname}"
+    calls = [c for c in own_calls(f.node) if call_name(c) == "optimal_completion"]
+    if len(calls) != 1:
+        raise AnalysisError("the OCD loss does not call optimal_completion exactly once")
+    b = bind_args(calls[0], oc, False)
+    got = {p.name: u(a) for p, a, _ in b.pairs}
+    want = dict(ref="ref", hyp="hyp", eos="eos", include_eos="include_eos", batch_first="batch_first", ins_cost="ins_cost",
+                del_cost="del_cost", sub_cost="sub_cost", padding="ignore_index", exclude_last="True", warn="warn")
+    col.ob("G1", "S1", f"{where}::optimal_completion-binding", got == want,
+           f"optimal_completion is called with {got}; expected {want} (one loss position per hypothesis token needs "
+           f"exclude_last=True)", rel, calls[0].lineno, sample=got)
+    # ---- S2 one sentinel: padding of the targets == ignore_index of cross_entropy == the padding mask constant ----
+    ce = [c for c in own_calls(f.node) if call_name(c).endswith("cross_entropy")]
+    okce = len(ce) == 1 and kwarg(ce[0], "ignore_index") is not None and u(kwarg(ce[0], "ignore_index")) == "ignore_index" \
+        and kwarg(ce[0], "reduction") is not None and u(kwarg(ce[0], "reduction")) == "'none'" and u(kwarg(ce[0], "weight")) == "weight"
+    tvar = None
+    for n in own_nodes(f.node):
+        if isinstance(n, ast.Assign) and n.value is calls[0] and isinstance(n.targets[0], ast.Name):
+            tvar = n.targets[0].id
+    if tvar is None:
+        raise AnalysisError("the OCD loss does not bind the optimal-completion targets to a variable")
+    masks = [n for n in own_nodes(f.node) if isinstance(n, ast.Assign) and isinstance(n.value, ast.Compare)
+             and u(n.value.left) == tvar and isinstance(n.value.ops[0], ast.Eq)]
+    okm = len(masks) == 1 and u(masks[0].value.comparators[0]) == "ignore_index"
+    col.ob("G13", "S2", f"{where}::one-padding-sentinel", okce and okm and got.get("padding") == "ignore_index",
+           f"the target padding ({got.get('padding')}), the cross-entropy ignore_index and the padding mask constant "
+           f"({u(masks[0].value) if masks else None}) are not the same value: padded target slots would be scored", rel,
+           f.line, sample=dict(padding=got.get("padding"), ce=u(ce[0])[:120] if ce else None))
+    # the loss per prefix: sum over targets / number of targets (clamped), zero where none
+    txt = [u(n) for n in own_nodes(f.node) if isinstance(n, ast.Assign)]
+    col.ob("G16", "S2", f"{where}::average-over-target-set",
+           "loss = loss.masked_fill(padding_mask, 0.0).sum(2)" in txt and "loss = loss / (~padding_mask).sum(2).clamp_min(1)" in txt,
+           "the per-prefix loss is not (sum over non-padding targets) / max(number of targets, 1)", rel, f.line)
+    R_enum.g8_dispatch(pkg, res, col, f, "reduction", "S2", members=["mean", "sum", "none"], allow_else=0)
+    # in optimal_completion: targets buffer filled with `padding`, scattered by count mask
+    rdo = ReachingDefs(oc.node)
+    fulls = [c for c in own_calls(oc.node) if call_name(c) == "torch.full" and len(c.args) >= 2]
+    col.ob("G13", "S2", f"{rel}::optimal_completion::targets-initialised-with-padding", len(fulls) == 1 and u(fulls[0].args[1]) == "padding",
+           "the target buffer is not initialised with the padding value", rel, oc.line)
+    tm = [n for n in own_nodes(oc.node) if isinstance(n, ast.Assign) and u(n.targets[0]) == "target_mask"]
+    col.ob("G12", "S2", f"{rel}::optimal_completion::targets-left-aligned", len(tm) == 1 and u(tm[0].value) == "counts.unsqueeze(-1) > torch.arange(C, device=device)",
+           f"target slots are filled under `{u(tm[0].value) if tm else None}`; expected count > position (tokens first, then only padding)", rel, oc.line)
+    plumbing(ctx, "S1")
+    return dict(
+        explanation=(
+            "Decides for C03: (S1) forwarding of OptimalCompletion / the OCD loss, optimal_completion runs the kernel in "
+            "mask mode, the loss calls it with exclude_last=True and binds options by name; (S2) one sentinel: the "
+            "targets' padding, cross_entropy's ignore_index and the padding-mask constant are the same parameter; targets "
+            "are left-aligned (count > position) in a buffer initialised with the padding; the per-prefix loss is the sum "
+            "over non-padding targets divided by max(count, 1); every reduction is handled. NOT decided: the diagonal-"
+            "minimum argument, duplicate collapsing (sort / neighbour comparison / scatter), the averaging values."),
+        decided=["S1", "S2"],
+        not_decided=["targets are exactly the distance-preserving tokens", "duplicate collapsing", "loss values"],
+        assumptions=["torch cross_entropy ignore_index semantics"],
+    )
+
+
+def _mutants():
+    from selftest.mutate import Mutant as M
+    S = "_string.py"
+    return [
+        M("loss-includes-last-prefix", S, "padding=ignore_index, exclude_last=True, warn=warn)", "padding=ignore_index, exclude_last=False, warn=warn)", "optimal_completion-binding"),
+        M("padding-default-used", S, "padding=ignore_index, exclude_last=True, warn=warn)", "exclude_last=True, warn=warn)", "G"),
+        M("mask-compares-other-constant", S, "padding_mask = optimals == ignore_index", "padding_mask = optimals == config.INDEX_PAD_VALUE", "one-padding-sentinel"),
+        M("ce-ignores-default", S, "weight=weight, ignore_index=ignore_index, reduction='none'", "weight=weight, reduction='none'", "one-padding-sentinel"),
+        M("no-clamp", S, "loss = loss / (~padding_mask).sum(2).clamp_min(1)", "loss = loss / (~padding_mask).sum(2)", "average-over-target-set"),
+        M("oc-not-mask-mode", S, "sub_cost, warn, return_mask=True, exclude_last=exclude_last)", "sub_cost, warn, return_prf_dsts=True, exclude_last=exclude_last)", "kernel-mode"),
+        M("targets-right-aligned", S, "target_mask = counts.unsqueeze(-1) > torch.arange(C, device=device)", "target_mask = counts.unsqueeze(-1) >= torch.arange(C, device=device)", "targets-left-aligned"),
+        M("targets-zero-filled", S, "targets = torch.full((H, N, C), padding, dtype=torch.long, device=device)", "targets = torch.full((H, N, C), 0, dtype=torch.long, device=device)", "targets-initialised"),
+        M("twin:rename-optimals", S, "optimals", "targets_", "", -1, twin=True),
+    ]
+
+
+def selftest(ctx: Ctx):
+    from selftest.mutate import run_selftest
+    return run_selftest("C03", ctx.pkg.repo, _mutants(), floor=7)
+
+
+MANIFEST = dict(
+    level_text=(
+        "Static analysis (no execution): forwarding/binding of the optimal-completion options, kernel mode, and the "
+        "single-sentinel table (target padding == cross-entropy ignore_index == padding-mask constant), left alignment "
+        "of the targets and the averaging shape of the loss. Structural clauses of C03 ('followed only by padding', "
+        "'zero where there are none', one loss position per hypothesis token); that the targets are exactly the "
+        "distance-preserving tokens is value-level and not decided."),
+    level_note="Trusted: python ast; torch cross_entropy semantics.",
+    technique="static analysis: argument binding, literal/sentinel table agreement, expression-shape rules",
+    design_ref="DESIGN.md section 4 C03",
+)
